@@ -61,6 +61,15 @@ var Out = os.Stdout
 
 func Native() bool           { return true }
 func Param(name string) int  { return cur.Params[name] }
+
+// ParamOr is Param with a default for parameter sets that do not mention name.
+func ParamOr(name string, def int) int {
+	if v, ok := cur.Params[name]; ok {
+		return v
+	}
+	return def
+}
+
 func Bool(name string) bool  { return get(name)&1 == 1 }
 func Byte(name string) byte  { return byte(get(name)) }
 func Int(name string) int    { return int(get(name)) }
